@@ -142,7 +142,11 @@ OpenDone(e) ==
       ok == e.ret = 0
       \* which label explains a context shared although the designated material differs
       staleKey == known /\ FileItems(cur.fres) # {} /\ ~HashFails(fs, cur.fres) /\ ctxs[X].key = KeyOf(fs, cur.fres)
+      \* the cache key still fits, and NOTHING has been written since the call that made the context returned: the context was
+      \* installed under the key of a file generation other than the one it was read from (no named deviation of the library)
+      staleInstall == staleKey /\ ctxs[X].fsb = fs
       shareWhy == IF interF # {} THEN "accept_env_frozen"
+                  ELSE IF staleInstall THEN "stale_install"
                   ELSE IF staleKey THEN "ctx_meta_key"
                   ELSE IF known /\ AllByValue(cur.fres) /\ ctxs[X].flat = Flat(cur.fres) THEN "value_concat"
                   ELSE "shared"
@@ -153,7 +157,8 @@ OpenDone(e) ==
                    ELSE [x \in DOMAIN ctxs \cup {X} |->
                            IF x = X THEN [cands |-> IF fresh = {} THEN {Cand(NoMat, "?")} ELSE fresh,
                                           key |-> IF HashFails(fs, cur.fres) THEN <<>> ELSE KeyOf(fs, cur.fres),
-                                          flat |-> IF AllByValue(cur.fres) THEN Flat(cur.fres) ELSE <<"-">>]
+                                          flat |-> IF AllByValue(cur.fres) THEN Flat(cur.fres) ELSE <<"-">>,
+                                          fsb |-> fs]
                            ELSE ctxs[x]]
       sk == IF ok THEN [socks EXCEPT ![cur.s] = [TSock0 EXCEPT !.live = TRUE, !.kind = cur.kind, !.des = cur.des,
                                                                 !.res = cur.fres, !.ctx = X]]
